@@ -561,9 +561,11 @@ func (s *state) evalCall(node *ast.CallNode) {
 func (s *state) renderBlock(node ast.Node) []byte {
 	var buf bytes.Buffer
 	origWriter := s.wr
+	origNode := s.node
 	s.wr = &buf
 	s.walk(node)
 	s.wr = origWriter
+	s.node = origNode // a later failure of the command is reported at the command, not inside the block
 	return buf.Bytes()
 }
 
